@@ -74,6 +74,11 @@ Theorem C15_mint_at_most_once : forall E ops b,
 Proof. exact mint_at_most_once. Qed.
 Print Assumptions C15_mint_at_most_once.
 
+Theorem C15_refund_at_most_once : forall E ops b,
+  NoDup (refunded_names (log (run E (init b) ops))).
+Proof. exact refund_at_most_once. Qed.
+Print Assumptions C15_refund_at_most_once.
+
 (* (5) the same external transaction name never backs two trackers: in every reachable state a
    name is in at most one of the three stores *)
 Theorem C15_unique_name : forall E ops b, stores_disjoint (run E (init b) ops).
